@@ -621,7 +621,9 @@ def gen_apply_channel_mask(mod):
         raise Unsupported("apply_channel_mask: cast of the mask changed")
     if "mask_value = np.float32(mask_value).astype(self.header.dtype)" not in txts:
         raise Unsupported("apply_channel_mask: cast of the mask value changed")
-    if "out_file = self.header.prep_outfile(outfile_name)" not in txts:
+    # the output header is the input header, except for the start time of a start/nsamps selection (C08)
+    if ("out_file = self.header.prep_outfile(outfile_name)" not in txts
+            and "out_file = self.header.prep_outfile(outfile_name, updates={'tstart': self.header.mjd_after_nsamps(start)})" not in txts):
         raise Unsupported("apply_channel_mask: output file is not prepared from the input header unchanged")
     loop = next((s for s in body if isinstance(s, ast.For)), None)
     if loop is None or loop.orelse:
@@ -630,7 +632,7 @@ def gen_apply_channel_mask(mod):
         raise Unsupported("apply_channel_mask loop target " + _u(loop.target))
     if _u(loop.iter) != "self.read_plan(gulp=gulp, start=start, nsamps=nsamps, **plan_kwargs)":
         raise Unsupported("apply_channel_mask loop iterator " + _u(loop.iter))
-    if body.index(loop) < max(txts.index("mask = np.array(chan_mask).astype('bool')"), txts.index("out_file = self.header.prep_outfile(outfile_name)")):
+    if body.index(loop) < max(txts.index("mask = np.array(chan_mask).astype('bool')"), next(i_ for i_, t_ in enumerate(txts) if t_.startswith("out_file = self.header.prep_outfile(outfile_name"))):
         raise Unsupported("apply_channel_mask: loop before set-up")
     lb = loop.body
     if len(lb) != 2:
